@@ -1398,3 +1398,119 @@ def r_oneshot(E):
     res.samples = [{"embedded_positive_examples_recognised": 1, "embedded_twins_silent": True}]
     res.floor = 100
     return res
+
+
+# ---------------------------------------------------------------------------------------------- R-DDKEY
+_DK_POSITIVE = '''
+from collections import defaultdict
+class Server:
+    @property
+    def jobs_by_origin(self):
+        by_origin = defaultdict(list)
+        for service in self.services:
+            for job in service.jobs:
+                by_origin[service].append(job)
+        return by_origin
+    @property
+    def installed_services(self):
+        return [origin for origin in self.jobs_by_origin]
+'''
+_DK_NEGATIVE = '''
+from collections import defaultdict
+class Server:
+    @property
+    def jobs_by_origin(self):
+        by_origin = defaultdict(list)
+        for service in self.services:
+            by_origin[service].extend(service.jobs)
+        return by_origin
+    @property
+    def installed_services(self):
+        return [origin for origin in self.jobs_by_origin]
+    @property
+    def jobs_by_kind(self):
+        by_kind = defaultdict(list)
+        for service in self.services:
+            for job in service.jobs:
+                by_kind[service].append(job)
+        return by_kind
+    @property
+    def all_jobs(self):
+        return [job for jobs in self.jobs_by_kind.values() for job in jobs]
+'''
+
+
+def lazily_keyed_defaultdicts(tree):
+    """[(function, dict name, key text, consumer)]: a defaultdict whose key for an element of the outer loop is only
+    created inside an inner loop over that element's items — an element without items never becomes a key — while the
+    keys of the returned dict are enumerated elsewhere in the class as *the* elements (for k in self.<f>, .keys(), in)"""
+    out = []
+    for cls in [n for n in ast.walk(tree) if isinstance(n, ast.ClassDef)]:
+        meths = [f for f in cls.body if isinstance(f, ast.FunctionDef)]
+        for f in meths:
+            dds = {a.targets[0].id for a in ast.walk(f) if isinstance(a, ast.Assign) and len(a.targets) == 1
+                   and isinstance(a.targets[0], ast.Name) and isinstance(a.value, ast.Call)
+                   and norm(a.value.func).split(".")[-1] == "defaultdict"}
+            returned = {norm(r.value) for r in ast.walk(f) if isinstance(r, ast.Return) and r.value is not None}
+            for d in sorted(dds & returned):
+                for outer in [n for n in ast.walk(f) if isinstance(n, ast.For)]:
+                    ov = _bound_names(outer.target)
+                    acc = [s for s in ast.walk(outer) if isinstance(s, ast.Subscript) and isinstance(s.value, ast.Name)
+                           and s.value.id == d and {x.id for x in ast.walk(s.slice) if isinstance(x, ast.Name)} & ov]
+                    if not acc:
+                        continue
+
+                    def inside_inner(s):
+                        x = getattr(s, "_parent", None)
+                        while x is not None and x is not outer:
+                            if isinstance(x, (ast.For, ast.While)):
+                                return True
+                            x = getattr(x, "_parent", None)
+                        return False
+                    if not all(inside_inner(s) for s in acc):
+                        continue
+                    # who enumerates the keys?
+                    me = f"self.{f.name}"
+                    consumer = None
+                    for g in meths:
+                        for n in ast.walk(g):
+                            it = None
+                            if isinstance(n, (ast.For, ast.comprehension)):
+                                it = n.iter
+                            elif isinstance(n, ast.Compare) and any(isinstance(o, (ast.In, ast.NotIn)) for o in n.ops):
+                                it = n.comparators[0]
+                            elif isinstance(n, ast.Call) and isinstance(n.func, ast.Attribute) and n.func.attr == "keys":
+                                it = n.func.value
+                            elif isinstance(n, ast.Call) and norm(n.func) in ("list", "set", "len", "sorted", "tuple") and n.args:
+                                it = n.args[0]
+                            if it is not None and norm(it) in (me, me + "()"):
+                                consumer = g
+                    if consumer is not None:
+                        out.append((f, d, norm(acc[0].slice), consumer))
+    return out
+
+
+@rule("R-DDKEY")
+def r_ddkey(E):
+    pm = E.pm
+    res = RuleResult("R-DDKEY", "when the keys of a grouping dict are read as the list of groups (the services installed on a "
+                                "server), every candidate gets its key — not only those that have at least one item: a "
+                                "defaultdict entry touched only inside the loop over the items does not exist for a group "
+                                "without items")
+    for mod, (rel, tree, src) in sorted(pm.modules.items()):
+        res.instances += len([n for n in ast.walk(tree) if isinstance(n, ast.Call) and norm(n.func).split(".")[-1] == "defaultdict"])
+        for f, d, key, consumer in lazily_keyed_defaultdicts(tree):
+            res.findings.append(Finding(
+                "R-DDKEY", f"{rel}:{f.name} :: {d}[{key}]",
+                f"{f.name} only creates `{d}[{key}]` inside the loop over the items of `{key}`, so a `{key}` without items is "
+                f"not a key of the returned dict — and {consumer.name} reads the keys of self.{f.name} as the list of all of "
+                f"them: the ones without items are missing (a service without jobs is not installed on its server any "
+                f"more: its base consumption is not reserved)", rel, f.lineno, f.name, {"clauses": _area(rel)}))
+    pos = lazily_keyed_defaultdicts(set_parents(ast.parse(_DK_POSITIVE)))
+    neg = lazily_keyed_defaultdicts(set_parents(ast.parse(_DK_NEGATIVE)))
+    if len(pos) != 1 or neg:
+        raise AnalysisError(f"R-DDKEY: embedded examples: {len(pos)} of 1 positive recognised, {len(neg)} false reports")
+    res.instances += 1
+    res.samples = [{"embedded_positive_examples_recognised": 1, "embedded_twins_silent": True}]
+    res.floor = 1
+    return res
